@@ -251,6 +251,10 @@ fn parse_players_and_teams(packets: Vec<Vec<u8>>) -> GDResult<(Vec<Player>, Vec<
             let field_split: Vec<&str> = field.split('_').collect();
             let field_name = field_split.first().ok_or(GDErrorKind::PacketBad)?;
             if !["player", "score", "ping", "team", "deaths", "pid", "skill"].contains(field_name) {
+                // a field there is no place for (kills_, clan_, ...): its section (offset byte,
+                // values, closing empty value) is skipped as a whole, not read again as field names
+                buf.read::<u8>()?;
+                while buf.remaining_length() != 0 && !buf.read_string::<Utf8Decoder>(None)?.is_empty() {}
                 continue;
             }
 
